@@ -187,6 +187,10 @@ where
 
         // Main Loop
         let result = loop {
+            #[cfg(oxmpl_verif)]
+            if crate::verif::tick() {
+                break Err(PlanningError::Timeout);
+            }
             // 1. Check for timeout
             if start_time.elapsed() > timeout {
                 break Err(PlanningError::Timeout);
@@ -247,5 +251,16 @@ where
         // Hand the generator back so that later calls continue the same (seeded) stream.
         self.rng = Some(rng);
         result
+    }
+}
+
+#[cfg(oxmpl_verif)]
+impl<S: State + Clone, SP: StateSpace<StateType = S>, G: Goal<S>> RRT<S, SP, G> {
+    /// Read-only snapshot of the search tree: (state, parent index) per node.
+    pub fn verif_tree(&self) -> Vec<(S, Option<usize>)> {
+        self.tree
+            .iter()
+            .map(|n| (n.state.clone(), n.parent_index))
+            .collect()
     }
 }
